@@ -312,6 +312,18 @@ def f(x: FLOAT[...]):
     return y + 1.0
 ''', ["x:F:3"])
 
+P("pow_operator_literal_exponent_of_another_type", '''
+@script()
+def f(n: INT64[...], x: FLOAT[...]):
+    return n ** 2.5, n ** 2, x ** 2, x ** 0.5
+''', ["n:I:3 x:F:3"])
+
+P("reflected_operators_with_python_scalars", '''
+@script()
+def f(n: INT64[...], x: FLOAT[...]):
+    return 2 - n, 7 / x, 3 - x, 2 * n, 1.5 + x, 10 - n * 2, 2 ** n, 2.0 ** x, 5 % n
+''', ["n:I:3 x:F:3"])
+
 P("same_named_subfunctions_in_two_domains", '''
 from onnxscript.values import Opset
 
